@@ -2044,14 +2044,14 @@ Proof.
     rewrite (Hx a b m n); [now apply in_map|now left|now right|assumption|assumption|congruence].
 Qed.
 
-(* the modules scanned for an implicit package: the files of its directories,
+(* the files globbed for an implicit package: the files of its directories,
    each ONCE, whatever __path__ repeats *)
-Theorem path_modules_once : forall path, path_ok path ->
-  NoDup (map file (path_modules path)) /\
-  (forall m, In m (path_modules path) <-> in_path path m).
+Lemma path_files_once : forall path, path_ok path ->
+  NoDup (map file (path_files path)) /\
+  (forall m, In m (path_files path) <-> in_path path m).
 Proof.
   intros path [Hsame [Hdisj Hnd]].
-  destruct (path_dirs_set path) as [H1 [H2 H3]]. unfold path_modules. split.
+  destruct (path_dirs_set path) as [H1 [H2 H3]]. unfold path_files. split.
   - apply flat_files_NoDup; [assumption| |].
     + intros a Ha. apply Hnd. now apply H2.
     + intros a b m n Ha Hb. apply Hdisj; now apply H2.
@@ -2061,6 +2061,101 @@ Proof.
       assert (Hd : In (pdir po) (map pdir (path_dirs path))) by (apply H3; now apply in_map).
       apply in_map_iff in Hd. destruct Hd as [po' [He Hpo']]. exists po'. split; [assumption|].
       rewrite (Hsame po' po); [assumption|now apply H2|assumption|assumption].
+Qed.
+
+(* ---- one file per module name (fix f71dd92) ---- *)
+
+Lemma unique_names_sound : forall l seen m,
+  In m (unique_names seen l) -> In m l /\ ~ In (mname m) seen.
+Proof.
+  induction l as [|a l IH]; intros seen m H; simpl in H; [contradiction|].
+  destruct (existsb _ _) eqn:E.
+  - apply IH in H. destruct H. split; [now right|assumption].
+  - destruct H as [H|H].
+    + subst. split; [now left|]. now apply existsb_eqb_not_In.
+    + apply IH in H. destruct H as [H1 H2]. split; [now right|]. intros Hin. apply H2. now right.
+Qed.
+
+Lemma unique_names_NoDup : forall l seen, NoDup (map mname (unique_names seen l)).
+Proof.
+  induction l as [|a l IH]; intros seen; simpl; [constructor|].
+  destruct (existsb _ _); [apply IH|]. simpl. constructor; [|apply IH].
+  intros Hin. apply in_map_iff in Hin. destruct Hin as [m [He Hin]].
+  apply unique_names_sound in Hin. destruct Hin as [_ Hn]. apply Hn. left. now symmetry.
+Qed.
+
+Lemma unique_names_complete : forall l seen m,
+  In m l -> ~ In (mname m) seen -> In (mname m) (map mname (unique_names seen l)).
+Proof.
+  induction l as [|a l IH]; intros seen m H Hn; [contradiction|]. simpl.
+  destruct (existsb _ _) eqn:E.
+  - destruct H as [H|H]; [subst; apply existsb_eqb_In in E; contradiction|now apply IH].
+  - simpl. destruct H as [H|H]; [subst; now left|].
+    destruct (string_dec (mname a) (mname m)) as [Heq|Hne]; [now left|].
+    right. apply IH; [assumption|]. intros [Hin|Hin]; contradiction.
+Qed.
+
+Lemma unique_names_files_NoDup : forall l seen,
+  NoDup (map file l) -> NoDup (map file (unique_names seen l)).
+Proof.
+  induction l as [|a l IH]; intros seen H; simpl; [constructor|].
+  inversion H as [|? ? Hn Hd]; subst. destruct (existsb _ _); [now apply IH|].
+  simpl. constructor; [|now apply IH]. intros Hin. apply Hn.
+  apply in_map_iff in Hin. destruct Hin as [m [He Hin]]. apply unique_names_sound in Hin.
+  apply in_map_iff. exists m. tauto.
+Qed.
+
+(* a file of a name that was seen earlier changes nothing *)
+Lemma unique_names_skip : forall l seen m' r,
+  (In (mname m') seen \/ exists m, In m l /\ mname m = mname m') ->
+  unique_names seen (l ++ m' :: r) = unique_names seen (l ++ r).
+Proof.
+  induction l as [|a l IH]; intros seen m' r H; simpl.
+  - destruct H as [H|[m [[] _]]]. apply existsb_eqb_In in H. now rewrite H.
+  - destruct (existsb (String.eqb (mname a)) seen) eqn:E.
+    + apply IH. destruct H as [H|[m [[Hm|Hm] He]]].
+      * now left.
+      * subst a. left. rewrite <- He. now apply existsb_eqb_In.
+      * right. now exists m.
+    + f_equal. apply IH. destruct H as [H|[m [[Hm|Hm] He]]].
+      * left. now right.
+      * subst a. left. left. exact He.
+      * right. now exists m.
+Qed.
+
+(* a module found in the directories of __path__ is identified by its file *)
+Lemma in_path_file_inj : forall path, path_ok path ->
+  forall m n, in_path path m -> in_path path n -> file m = file n -> m = n.
+Proof.
+  intros path [Hsame [Hdisj Hnd]] m n [a [Ha Hm]] [b [Hb Hn]] Hf.
+  assert (Hd : pdir a = pdir b) by (eapply Hdisj; eauto).
+  rewrite <- (Hsame a b Ha Hb Hd) in Hn.
+  eapply NoDup_map_In_inj; [apply (Hnd a Ha)| | |]; eauto.
+Qed.
+
+(* The files scanned for an implicit package: every file at most once, ONE
+   file per module name, only files of its directories, every module name found
+   there is represented; when no name occurs twice these are all the files *)
+Theorem path_modules_once : forall path, path_ok path ->
+  NoDup (map file (path_modules path)) /\
+  NoDup (map mname (path_modules path)) /\
+  (forall m, In m (path_modules path) -> in_path path m) /\
+  (forall m, in_path path m -> exists m', In m' (path_modules path) /\ mname m' = mname m) /\
+  (names_distinct path -> forall m, in_path path m -> In m (path_modules path)).
+Proof.
+  intros path Hok. destruct (path_files_once path Hok) as [Hnd Hin]. unfold path_modules.
+  assert (Hrep : forall m, in_path path m ->
+            exists m', In m' (unique_names [] (path_files path)) /\ mname m' = mname m).
+  { intros m Hm. apply Hin in Hm.
+    assert (H : In (mname m) (map mname (unique_names [] (path_files path))))
+      by (apply unique_names_complete; [assumption|intros []]).
+    apply in_map_iff in H. destruct H as [m' [He H]]. now exists m'. }
+  split; [now apply unique_names_files_NoDup|]. split; [apply unique_names_NoDup|]. split.
+  - intros m H. apply unique_names_sound in H. apply Hin. tauto.
+  - split; [exact Hrep|].
+    intros Hdist m Hm. destruct (Hrep m Hm) as [m' [Hm' He]].
+    assert (m' = m); [|now subst].
+    apply Hdist; [|assumption|assumption]. apply unique_names_sound in Hm'. apply Hin. tauto.
 Qed.
 
 Lemma dedup_dirs_skip : forall a seen po b,
@@ -2076,7 +2171,7 @@ Theorem repeated_portion_ignored : forall pre po mid po' post,
   pdir po' = pdir po ->
   path_modules (pre ++ po :: mid ++ po' :: post) = path_modules (pre ++ po :: mid ++ post).
 Proof.
-  intros pre po mid po' post He. unfold path_modules, path_dirs. f_equal.
+  intros pre po mid po' post He. unfold path_modules, path_files, path_dirs. do 2 f_equal.
   generalize (@nil string) as seen.
   induction pre as [|x pre IH]; intros seen; simpl.
   - destruct (existsb _ _) eqn:E.
@@ -2104,30 +2199,71 @@ Proof.
 Qed.
 
 (* "once each": for an implicit package too -- several directories, the same
-   directory several times -- every class with MODE_NAME and not DISABLED found
-   in a module of one of the directories is called exactly once, nothing else is *)
+   directory several times, files of the same name in several directories --
+   every class with MODE_NAME and not DISABLED of a scanned file is called exactly
+   once, nothing else is *)
 Theorem namespace_instantiated_once : forall fms pkgname path r,
   init fms pkgname (ImportedNamespace path) = Built r ->
   path_ok path ->
   (forall m, in_path path m -> NoDup (map cname (classes m))) ->
   NoDup (ctor_calls r) /\
-  (forall m c, in_path path m -> mname m <> "__init__" -> import_fails m = false -> In c (classes m) ->
+  (forall m c, In m (path_modules path) -> mname m <> "__init__" -> import_fails m = false -> In c (classes m) ->
      (In (file m, cname c) (ctor_calls r) <-> is_needed c = true)) /\
   (forall x, In x (ctor_calls r) ->
-     exists m c, in_path path m /\ In c (classes m) /\ is_needed c = true /\ x = (file m, cname c)).
+     exists m c, In m (path_modules path) /\ In c (classes m) /\ is_needed c = true /\ x = (file m, cname c)).
 Proof.
   intros fms pkgname path r H Hok Hcls. unfold init, import_outcome in H.
-  destruct (path_modules_once path Hok) as [Hnd Hin].
+  destruct (path_modules_once path Hok) as [Hnd [_ [Hin _]]].
   assert (Hl : layout_ok (PkgPresent (path_modules path))).
   { split; simpl.
     - now apply NoDup_map_filter.
     - intros m Hm. apply filter_In in Hm. apply Hcls, Hin. tauto. }
   assert (Hload : forall m, In m (loaded_modules (PkgPresent (path_modules path))) <->
-                            in_path path m /\ mname m <> "__init__" /\ import_fails m = false).
-  { intros m. unfold loaded_modules. simpl. rewrite !filter_In, Hin, !negb_true_iff, String.eqb_neq. tauto. }
+                            In m (path_modules path) /\ mname m <> "__init__" /\ import_fails m = false).
+  { intros m. unfold loaded_modules. simpl. rewrite !filter_In, !negb_true_iff, String.eqb_neq. tauto. }
   destruct (instantiated_exactly _ _ _ H Hl) as [I1 [I2 I3]]. split; [exact I1|]. split.
   - intros m c Hm Hn Hf Hc. apply I2; [|assumption]. apply Hload. auto.
   - intros x Hx. destruct (I3 x Hx) as [m [c [Hm [Hc He]]]]. exists m, c.
     apply Hload in Hm as Hm'. destruct Hm' as [Hp _]. repeat split; auto.
     apply (I2 m c Hm Hc). now rewrite <- He.
+Qed.
+
+(* D15.  Files of the same name in several directories of __path__: of all the
+   files that bear a module name exactly ONE is used, and every class with
+   MODE_NAME and not DISABLED of that module is called through it -- once
+   ([NoDup (ctor_calls r)]) -- and through no other file of that name. *)
+Theorem namespace_one_file_per_name : forall fms pkgname path r,
+  init fms pkgname (ImportedNamespace path) = Built r ->
+  path_ok path -> name_determines_module path ->
+  (forall m, in_path path m -> NoDup (map cname (classes m))) ->
+  forall m, in_path path m -> mname m <> "__init__" -> import_fails m = false ->
+  exists m', In m' (path_modules path) /\ mname m' = mname m /\
+    forall c, In c (classes m) -> is_needed c = true ->
+      In (file m', cname c) (ctor_calls r) /\
+      (forall n, in_path path n -> mname n = mname m -> In (file n, cname c) (ctor_calls r) -> n = m').
+Proof.
+  intros fms pkgname path r H Hok Hname Hcls m Hm Hni Hif.
+  destruct (path_modules_once path Hok) as [_ [Hndn [Hin [Hrep _]]]].
+  destruct (namespace_instantiated_once _ _ _ _ H Hok Hcls) as [_ [I2 I3]].
+  destruct (Hrep m Hm) as [m' [Hm' He]]. exists m'. split; [assumption|]. split; [assumption|].
+  destruct (Hname m' m (Hin _ Hm') Hm He) as [Hc Hf].
+  intros c Hcm Hneed. split.
+  - apply (I2 m' c); [assumption|congruence|congruence|rewrite Hc; assumption|assumption].
+  - intros n Hn Hen Hcall. destruct (I3 _ Hcall) as [m2 [c2 [Hm2 [_ [_ Hx]]]]].
+    assert (Hfile : file n = file m2) by congruence.
+    assert (n = m2) by (apply (in_path_file_inj path Hok); [assumption|now apply Hin|exact Hfile]).
+    subst m2. eapply NoDup_map_In_inj; [exact Hndn| | |]; auto. congruence.
+Qed.
+
+(* ... and a file whose name an earlier directory already has changes NOTHING *)
+Theorem namespace_shadowed_file_ignored : forall fms pkgname a d pre m' post,
+  pdir a <> d -> (exists m, In m (pfiles a) /\ mname m = mname m') ->
+  init fms pkgname (ImportedNamespace [a; mkPortion d (pre ++ m' :: post)]) =
+  init fms pkgname (ImportedNamespace [a; mkPortion d (pre ++ post)]).
+Proof.
+  intros fms pkgname a d pre m' post Hd [m [Hm He]]. unfold init, import_outcome. do 2 f_equal.
+  unfold path_modules, path_files, path_dirs. simpl.
+  apply String.eqb_neq in Hd. rewrite String.eqb_sym in Hd. rewrite Hd. simpl. rewrite !app_nil_r.
+  rewrite !app_assoc. apply unique_names_skip. right. exists m. split; [|assumption].
+  apply in_or_app. now left.
 Qed.
